@@ -14,9 +14,16 @@
                        duplicates) and adds exactly that name; an existing name is refused;
   * `delete_sorted`, `delete_mem`  deleting keeps it sorted and removes exactly that name;
   * `ops_sorted`       by induction, after ANY sequence of adds and deletes the table is
-                       strictly sorted — every name unique and found by look-up.
+                       strictly sorted — every name unique and found by look-up;
+  * `reaffix_sorted`, `reaffix_mem`, `reaffix_found`   a change of affixes or namespace that
+                       renames any subset of the names and then re-sorts (`qsort` with
+                       `_GD_EntryCmp`) leaves a strictly sorted table of exactly the new names,
+                       each found by the bisection; the example after them shows the re-sort is
+                       needed even when no length changes; `resort_in_source_is_unconditional`
+                       ties that to src/fragment.c through extractor X8.
 -/
 import GdModel.Names.Table
+import GdModel.Generated.Resort
 namespace GdModel.Props.C15
 open GdModel.Names
 
@@ -357,6 +364,119 @@ theorem ops_sorted (ops : List Op) (tab : List Key) (hs : Sorted tab) : Sorted (
 
 theorem empty_sorted : Sorted [] := by
   intro i j a b _ ha; simp at ha
+
+/-! ### re-sorting after `gd_alter_affixes` / `gd_fragment_namespace` -/
+
+theorem lt_total (a b : Key) (hne : a ≠ b) : lt a b ∨ lt b a := by
+  unfold lt
+  cases h : strlencmp a b with
+  | lt => exact Or.inl rfl
+  | eq => exact absurd ((strlencmp_eq_iff a b).1 h) hne
+  | gt => exact Or.inr ((gt_iff_lt a b).1 h)
+
+theorem ins_mem (k x : Key) : ∀ (l : List Key), x ∈ ins k l ↔ x = k ∨ x ∈ l
+  | [] => by simp [ins]
+  | y :: ys => by
+    unfold ins
+    split
+    · simp
+    · simp [ins_mem k x ys]
+      constructor
+      · rintro (h | h | h)
+        · exact Or.inr (Or.inl h)
+        · exact Or.inl h
+        · exact Or.inr (Or.inr h)
+      · rintro (h | h | h)
+        · exact Or.inr (Or.inl h)
+        · exact Or.inl h
+        · exact Or.inr (Or.inr h)
+
+theorem ins_pairwise (k : Key) : ∀ (l : List Key), l.Pairwise lt → (∀ x ∈ l, x ≠ k) → (ins k l).Pairwise lt
+  | [], _, _ => by simp [ins]
+  | y :: ys, hp, hne => by
+    have hp' := List.pairwise_cons.1 hp
+    unfold ins
+    split
+    · rename_i hlt
+      refine List.pairwise_cons.2 ⟨?_, hp⟩
+      intro z hz
+      rcases List.mem_cons.1 hz with rfl | hz
+      · exact hlt
+      · exact lt_trans k y z hlt (hp'.1 z hz)
+    · rename_i hnlt
+      have hyk : lt y k := by
+        rcases lt_total y k (hne y (List.mem_cons_self)) with h | h
+        · exact h
+        · exact absurd h hnlt
+      refine List.pairwise_cons.2 ⟨?_, ins_pairwise k ys hp'.2 (fun x hx => hne x (List.mem_cons_of_mem _ hx))⟩
+      intro z hz
+      rcases (ins_mem k z ys).1 hz with rfl | hz
+      · exact hyk
+      · exact hp'.1 z hz
+
+theorem resort_mem (x : Key) : ∀ (l : List Key), x ∈ resort l ↔ x ∈ l
+  | [] => by simp [resort]
+  | y :: ys => by
+    have ih := resort_mem x ys
+    unfold resort at ih ⊢
+    rw [List.foldr_cons, ins_mem, ih, List.mem_cons]
+
+theorem resort_pairwise : ∀ (l : List Key), l.Nodup → (resort l).Pairwise lt
+  | [], _ => by simp [resort]
+  | y :: ys, hn => by
+    have hn' := List.nodup_cons.1 hn
+    have ih := resort_pairwise ys hn'.2
+    unfold resort at ih ⊢
+    rw [List.foldr_cons]
+    refine ins_pairwise y _ ih ?_
+    intro x hx hxy
+    have : x ∈ ys := (resort_mem x ys).1 hx
+    exact hn'.1 (hxy ▸ this)
+
+theorem sorted_of_pairwise (l : List Key) (h : l.Pairwise lt) : Sorted l := by
+  intro i j a b hij ha hb
+  obtain ⟨hi, rfl⟩ := List.getElem?_eq_some_iff.1 ha
+  obtain ⟨hj, rfl⟩ := List.getElem?_eq_some_iff.1 hb
+  exact (List.pairwise_iff_getElem.1 h) i j hi hj hij
+
+/-- **a change of affixes followed by the re-sort leaves a consistent table**:
+    when the new names are distinct (the library checks that before it commits:
+    GD_E_DUPLICATE), the table is strictly sorted again, it holds exactly the new
+    names, and each of them is found by the bisection -/
+theorem reaffix_sorted (tab : List Key) (f : Key → Key) (hd : (tab.map f).Nodup) :
+    Sorted (reaffix tab f true) := by
+  unfold reaffix
+  simp only [if_true]
+  exact sorted_of_pairwise _ (resort_pairwise _ hd)
+
+theorem reaffix_mem (tab : List Key) (f : Key → Key) (x : Key) :
+    x ∈ reaffix tab f true ↔ ∃ k ∈ tab, f k = x := by
+  unfold reaffix
+  simp only [if_true]
+  rw [resort_mem]; simp
+
+theorem reaffix_found (tab : List Key) (f : Key → Key) (hd : (tab.map f).Nodup) (k : Key) (hk : k ∈ tab) :
+    ∃ i, find (reaffix tab f true) (f k) = .at_ i := by
+  have hm : f k ∈ reaffix tab f true := (reaffix_mem tab f (f k)).2 ⟨k, hk, rfl⟩
+  obtain ⟨i, hi⟩ := List.getElem?_of_mem hm
+  exact ⟨i, find_complete _ _ (reaffix_sorted tab f hd) i hi⟩
+
+/-- and the re-sort is needed even when no name changes its length: `Ax1 → Zx1`
+    next to the untouched name `Mid` (same length, between the two) leaves a table
+    in which the bisection no longer finds a listed name -/
+example :
+    let tab : List Key := [[65, 120, 49], [77, 105, 100]]               -- "Ax1", "Mid"  (sorted)
+    let f : Key → Key := fun k => if k = [65, 120, 49] then [90, 120, 49] else k   -- "Ax1" ↦ "Zx1"
+    find (reaffix tab f false) [90, 120, 49] = .missing 2 ∧
+    find (reaffix tab f true) [90, 120, 49] = .at_ 1 ∧ find (reaffix tab f true) [77, 105, 100] = .at_ 0 := by decide
+
+/-- the tie to src/fragment.c: X8 reads `_GD_UpdateAffixes` and reports whether every
+    replaced code sets `resort` unconditionally, whether the `qsort` with
+    `_GD_EntryCmp` follows, and whether `_GD_EntryCmp` is `_GD_strlencmp` on the two names -/
+theorem resort_in_source_is_unconditional :
+    Generated.resortFacts.everyReplacedCodeSetsResort = true ∧
+    Generated.resortFacts.qsortWithEntryCmpFollows = true ∧
+    Generated.resortFacts.entryCmpIsStrlencmp = true := by decide
 
 /-! ### non-vacuity -/
 example : (add (add (add [] [98, 98]).1 [97]).1 [97, 99]).1 = [[97], [97, 99], [98, 98]] := by decide
